@@ -34,3 +34,30 @@ SPECS["C17"] = dict(
     trusted_base=["Rust std::io::Read contract (a reader never reports more bytes than the buffer holds)"],
     assumptions=["64-bit usize; allocation failure (OOM abort) not modelled"],
 )
+
+SPECS["C12"] = dict(
+    title="MessageView is total on untrusted bytes and its accessors agree",
+    lean_modules=["Woodpile.Props.C12"],
+    theorems=[
+        "Woodpile.Props.C12.new_no_panic",
+        "Woodpile.Props.C12.new_accepts_iff",
+    ],
+    families=[dict(name="tlvview", quick=3000, thorough=400000)],
+    technique="Lean 4 proof (all byte strings; checked slicing so that panic-freedom is a theorem) + model/implementation correspondence",
+    design_ref="DESIGN.md section 5, C12",
+    level_text=("Kernel-checked theorems about a Lean model of rough_tlv's MessageView (Woodpile.RoughTlv: View.new and every "
+                "accessor, with every slice expression checked so that a panic is an observable `none`) for every byte string. "
+                "The model is tied to /repo by running the real MessageView::new and all accessors "
+                "(len/is_empty/tags/tags_match_exactly/iter/get/get_value/find_tag/find on indices 0..N+1, 2^32, usize::MAX and on "
+                "present/absent tags) and the compiled model on the same inputs - every byte string of length <= 8 over "
+                "{00,01,02,FF}, every string of <= 5 words over {0,1,2,3,4,FFFFFFFF} with 0..3 trailing bytes, and structured random "
+                "headers (truncation at every length, N near the buffer size and near 2^32, equal/decreasing offsets and tags, "
+                "offsets beyond the payload, trailing bytes, duplicate tags) - and diffing all results; a direct oracle re-checks the "
+                "property on the real accessors against an acceptance predicate written from the property text."),
+    level_note=("Trusted: Lean kernel + 3 standard axioms; the correspondence harness and its generators; core::slice::binary_search "
+                "is modelled as Rust 1.95 implements it (last match among equal tags) and the theorems hold for any search that returns "
+                "a matching index. For N = 0 trailing bytes after the count word are accepted and belong to no value (the tiling "
+                "statement is about N >= 1)."),
+    trusted_base=["Rust std slice::binary_search / slice indexing semantics (modelled, not verified)"],
+    assumptions=["64-bit usize (8 * N cannot overflow for N < 2^32)"],
+)
